@@ -1,6 +1,191 @@
 import CkbVerif.Driver.Util
+import CkbVerif.Model.MMR
+import CkbVerif.Model.Filter
+
+/-! Line-protocol driver for C19 (see harness/hcore/src/c19.rs for the protocol).
+`ckbmodel C19 mmr` and `ckbmodel C19 filter`. -/
 namespace CkbVerif.Driver.C19
-def main (_args : List String) : IO UInt32 := do
-  IO.eprintln "C19: model driver not implemented"
-  return 2
+open CkbVerif.Driver CkbVerif.MMR
+
+/-- Block-number range covered by a term. A leaf id encodes its header: number = id % 10000. -/
+def termLo : Term → Nat
+  | .leaf id => id % 10000
+  | .node l _ => termLo l
+
+def termHi : Term → Nat
+  | .leaf id => id % 10000
+  | .node _ r => termHi r
+
+/-- Node values of the driver: `none` = "the real `MergeHeaderDigest::merge` returned `Err`". -/
+abbrev PT := Option Term
+
+/-- The real merge refuses digests whose block-number ranges are not adjacent (the epoch check is
+implied: the harness derives the epoch from the number). An error poisons everything built on it. -/
+def pmerge (a b : PT) : PT :=
+  match a, b with
+  | some x, some y => if termHi x + 1 = termLo y then some (.node x y) else none
+  | _, _ => none
+
+structure St where
+  mmr : MMR PT := ⟨0, Store.empty⟩
+  roots : List (Nat × Term) := []
+  proofs : List (Nat × Nat × List Term) := []
+
+def renderList (l : List Term) : String :=
+  if l.isEmpty then "-" else ";".intercalate (l.map Term.render)
+
+def allSome (l : List PT) : Option (List Term) := l.mapM id
+
+def lookup {β : Type} (l : List (Nat × β)) (k : Nat) : Option β :=
+  (l.find? fun e => e.1 = k).map (·.2)
+
+/-- `idx:id,idx:id` -/
+def parsePairs? (s : String) : Option (List (Nat × Nat)) :=
+  if s = "-" then some [] else
+  (s.splitOn ",").mapM fun t =>
+    match t.splitOn ":" with
+    | [a, b] => do
+      let a ← parseNat? a
+      let b ← parseNat? b
+      pure (a, b)
+    | _ => none
+
+def sizeOfLeaves (n : Nat) : Nat := if n = 0 then 0 else leafIndexToMmrSize (n - 1)
+
+def rootLine (s : St) (m : MMR PT) (slot : Nat) : St × String :=
+  match getRoot pmerge m with
+  | some (some r) => ({ s with roots := (slot, r) :: s.roots }, s!"root {r.render}")
+  | _ => (s, "err")
+
+def proofLine (s : St) (m : MMR PT) (slot : Nat) (pos : List Nat) : St × String :=
+  match (genProof pmerge m pos).bind allSome with
+  | some p => ({ s with proofs := (slot, m.size, p) :: s.proofs }, s!"proof {m.size} {renderList p}")
+  | none => (s, "err")
+
+/-- a push whose merges failed leaves the MMR untouched (the object is dropped uncommitted) -/
+def pushChecked (m : MMR PT) (ids : List Nat) : Option (MMR PT × Nat) :=
+  match ids with
+  | [] => some (m, m.size)
+  | _ =>
+    match pushAll pmerge m (ids.map fun i => some (Term.leaf i)) with
+    | none => none
+    | some m' =>
+      if (List.range (m'.size - m.size)).all (fun k => match m'.store (m.size + k) with | some (some _) => true | _ => false)
+      then some (m', m.size) else none
+
+def stepMmr (s : St) (ts : List String) : St × String :=
+  match ts with
+  | ["push", id] =>
+    match parseNat? id with
+    | some id =>
+      match pushChecked s.mmr [id] with
+      | some (m, pos) => ({ s with mmr := m }, s!"ok {pos} {m.size}")
+      | none => (s, "err")
+    | none => (s, "bad-op")
+  | ["pushn", ids] =>
+    match parseNatList? ids with
+    | some ids =>
+      match pushChecked s.mmr ids with
+      | some (m, _) => ({ s with mmr := m }, s!"ok {m.size}")
+      | none => (s, "err")
+    | none => (s, "bad-op")
+  | ["reorg", n] =>
+    match parseNat? n with
+    | some n =>
+      let m : MMR PT := { size := sizeOfLeaves n, store := s.mmr.store }
+      ({ s with mmr := m }, s!"ok {m.size}")
+    | none => (s, "bad-op")
+  | ["root", slot] =>
+    match parseNat? slot with
+    | some slot => rootLine s s.mmr slot
+    | none => (s, "bad-op")
+  | ["rootat", n, slot] =>
+    match parseNat? n, parseNat? slot with
+    | some n, some slot => rootLine s (recreate s.mmr n) slot
+    | _, _ => (s, "bad-op")
+  | ["proof", slot, n, idxs] =>
+    match parseNat? slot, parseNat? n, parseNatList? idxs with
+    | some slot, some n, some idxs => proofLine s (recreate s.mmr n) slot (idxs.map leafIndexToPos)
+    | _, _, _ => (s, "bad-op")
+  | ["proofpos", slot, n, ps] =>
+    match parseNat? slot, parseNat? n, parseNatList? ps with
+    | some slot, some n, some ps => proofLine s (recreate s.mmr n) slot ps
+    | _, _, _ => (s, "bad-op")
+  | ["verify", rslot, pslot, leaves] =>
+    match parseNat? rslot, parseNat? pslot, parsePairs? leaves with
+    | some rslot, some pslot, some leaves =>
+      match lookup s.roots rslot, lookup s.proofs pslot with
+      | some root, some (size, proof) =>
+        let ls : List (Nat × PT) := leaves.map fun (i, id) => (leafIndexToPos i, some (Term.leaf id))
+        match calculateRoot pmerge ls size (proof.map some) with
+        | some (some r) => (s, if r = root then "true" else "false")
+        | _ => (s, "err")
+      | _, _ => (s, "bad-op")
+    | _, _, _ => (s, "bad-op")
+  | ["posheight", p] =>
+    match parseNat? p with
+    | some p => (s, s!"{posHeightInTree p}")
+    | none => (s, "bad-op")
+  | ["peaks", n] =>
+    match parseNat? n with
+    | some n => (s, showNatList (getPeaks n))
+    | none => (s, "bad-op")
+  | ["idx2size", i] =>
+    match parseNat? i with
+    | some i => (s, s!"{leafIndexToMmrSize i}")
+    | none => (s, "bad-op")
+  | ["idx2pos", i] =>
+    match parseNat? i with
+    | some i => (s, s!"{leafIndexToPos i}")
+    | none => (s, "bad-op")
+  | _ => (s, "bad-op")
+
+/-! ### filter stream -/
+open CkbVerif.Filter
+
+structure FSt where
+  cells : List (Nat × Cell) := []   -- cell id ↦ output, ids are assigned 1,2,3… in creation order
+  next : Nat := 1
+
+/-- `lock:type` or `lock:-` -/
+def parseCell? (t : String) : Option Cell :=
+  match t.splitOn ":" with
+  | [l, ty] => do
+    let l ← parseNat? l
+    if ty = "-" then pure ⟨l, none⟩ else do
+      let ty ← parseNat? ty
+      pure ⟨l, some ty⟩
+  | _ => none
+
+/-- `c|n/in,in/lock:type,lock:type` → (cellbase, input cell ids, outputs) -/
+def parseTx? (t : String) : Option (Bool × List Nat × List Cell) :=
+  match t.splitOn "/" with
+  | [k, ins, outs] => do
+    let ins ← parseNatList? ins
+    let outs ← if outs = "-" then pure [] else (outs.splitOn ",").mapM parseCell?
+    pure (k = "c", ins, outs)
+  | _ => none
+
+def stepFilter (s : FSt) (ts : List String) : FSt × String :=
+  match ts with
+  | "fblock" :: txs =>
+    match txs.mapM parseTx? with
+    | none => (s, "bad-op")
+    | some txs =>
+      -- the provider sees every cell created so far, including this block's own outputs that
+      -- precede… no: `get_transaction` finds any committed transaction of the store; the harness
+      -- registers this block's outputs *before* building (the block body is stored first).
+      let (cells, next) := txs.foldl (fun (acc : List (Nat × Cell) × Nat) tx =>
+        tx.2.2.foldl (fun (a : List (Nat × Cell) × Nat) c => ((a.2, c) :: a.1, a.2 + 1)) acc) (s.cells, s.next)
+      let mtxs : List Tx := txs.map fun (cb, ins, outs) =>
+        { cellbase := cb, inputs := ins.map (fun i => (cells.find? fun e => e.1 = i).map (·.2)), outputs := outs }
+      let set := elemSet (blockElems mtxs)
+      ({ cells := cells, next := next }, s!"n={set.length} elems={showNatList set} missing={blockMissing mtxs}")
+  | _ => (s, "bad-op")
+
+def main (args : List String) : IO UInt32 :=
+  match args with
+  | ["filter"] => runLines ({} : FSt) stepFilter
+  | _ => runLines ({} : St) stepMmr
+
 end CkbVerif.Driver.C19
